@@ -88,18 +88,43 @@ def rule_header(facts):
             r.ok("term", {"lc": shape(lc)[:60], "lp": shape(lp)[:60], "pb": shape(pb)[:60]})
         else:
             r.bad("read_header|split", "lc/lp/pb are not p%%9, (p/9)%%5, (p/9)/5: %s" % shape(t)[:160], pat.where(x, bb))
-    # dictionary clamp
-    gs, tm = pat.guards(b)
-    clamp = None
-    for (bb, t, z, nz) in gs:
-        s = pat.cmp_sides(t)
-        if s and s[0] == "Lt" and pat.has_call(s[1], "read_u32") and s[2][0] == "const":
-            clamp = (bb, s[2][1])
+    # dictionary size in effect: the header's u32, raised to 4096 - and nothing else (the window's distance guards and the
+    # wrap position use this value); gated evaluation of the dict_size field of the returned parameters
+    from engine.flow import PosTerms
+    pt = PosTerms(b)
+    adt = facts.adt("decode::lzma::LzmaParams")
+    agg = None
+    for blk in b.blocks:
+        for i, s_ in enumerate(blk.stmts):
+            if s_.k == "assign" and s_.rv.k == "aggregate" and s_.rv.agg == "adt" and s_.rv.adt_name.endswith("lzma::LzmaParams"):
+                agg = (blk.idx, i, s_)
     r.sites += 1
-    if clamp and clamp[1] == 0x1000:
-        r.ok("term", {"dict_size": "max(field, 0x1000)"})
+    if adt is None or agg is None:
+        r.bad("read_header|clamp", "cannot find the LzmaParams built by read_header", pat.where(b), "unverifiable")
+        return r
+    names = [f_["name"] for f_ in adt["variants"][0]["fields"]]
+    op = agg[2].rv.ops[names.index("dict_size")]
+    bad = None
+    try:
+        for v in (0, 1, 4095, 4096, 4097, 0x1800, 0x10400, 1 << 20, (1 << 32) - 0x1000, (1 << 32) - 1):
+            leaf = lambda q, v=v: v if (q[0] in ("ok", "try") and pat.has_call(q, "read_u32")) else (_ for _ in ()).throw(pat.NotEvaluable(q))
+            if op.place is not None and not op.place.proj:
+                got = pat.eval_gated(b, pt, op.place.local, agg[0], leaf, agg[1])
+            else:
+                got = pat.eval_term(pt.at(agg[0], agg[1]).of_operand(op), leaf)
+            if got != max(v, 0x1000):
+                bad = "a header dictionary size of %d gives a window of %d, the format says %d" % (v, got, max(v, 0x1000))
+                break
+    except pat.Overflow:
+        bad = "the dictionary size computation overflows"
+    except pat.NotEvaluable as ex:
+        r.bad("read_header|clamp", "cannot evaluate the dictionary size in effect as a function of the header field (%s)"
+              % (flow.show(ex.args[0])[:60] if isinstance(ex.args[0], tuple) else ex.args[0]), pat.where(b, agg[0]), "unverifiable")
+        return r
+    if bad:
+        r.bad("read_header|clamp", bad, pat.where(b, agg[0]))
     else:
-        r.bad("read_header|clamp", "the dictionary size clamp is not `< 0x1000 -> 0x1000` (%s)" % (clamp,), pat.where(b))
+        r.ok("evaluation", {"dict_size": "max(field, 0x1000) on 10 values incl. unaligned and near 2^32"})
     return r
 
 
@@ -365,6 +390,72 @@ def rule_window(facts):
                       "holding exactly dict_size bytes at that moment" % bad, pat.where(st, blk.idx))
             else:
                 r.ok("evaluation", {"set": "buf grows to a length in [index + 1, dict_size]"})
+    # the previous byte (literal context): nothing produced -> the default; otherwise the cell before the cursor, modulo dict_size
+    lo = next((x for x in facts.bodies if x.promoted is None and x.trait == "decode::lzbuffer::LzBuffer" and
+               x.item == "last_or" and "Circular" in x.name), None)
+    if lo is not None:
+        from engine.flow import PosTerms
+        ptl = PosTerms(lo)
+        cl = cfg(lo)
+        term_at = lambda b_: ptl.at(b_.idx, None).of_operand(b_.term.discr)
+        srcs = []       # (block, kind, index term)
+        for blk in lo.blocks:
+            if blk.cleanup or blk.idx not in cl.reach:
+                continue
+            for s_ in blk.stmts:
+                if s_.k == "assign" and s_.place.local == 0 and not s_.place.proj:
+                    t_ = ptl.at(blk.idx, None).of_rvalue(s_.rv, blk.idx)
+                    srcs.append((blk.idx, "default" if pat.has_arg(t_, "lit") and not pat.has_call(t_, "get") else "other", t_))
+            if blk.term.k == "call" and blk.term.dest.local == 0 and not blk.term.dest.proj:
+                nm = flow.callee(blk.term) or ""
+                if nm.endswith("LzCircularBuffer::get") or nm.endswith("Index>::index"):
+                    srcs.append((blk.idx, "cell", ptl.at(blk.idx, None).of_operand(blk.term.args[1])))
+                else:
+                    srcs.append((blk.idx, "other", None))
+        r.sites += 1
+        bad = None
+        try:
+            for D in (4, 6):
+                for cur in range(D):
+                    for ln in sorted({0 if cur == 0 else cur, cur, cur + D, cur + 2 * D}):
+                        def leaf(q, D=D, cur=cur, ln=ln):
+                            if q[0] == "field" and q[1] == "dict_size":
+                                return D
+                            if q[0] == "field" and q[1] == "cursor":
+                                return cur
+                            if q[0] == "field" and q[1] == "len":
+                                return ln
+                            raise pat.NotEvaluable(q)
+                        live = []
+                        for (bb, kind, t_) in srcs:
+                            if all(pat._cond_holds(ct, cond, leaf) for (gb, ct, cond) in pat.branch_conditions(lo, cl, bb, term_at)):
+                                live.append((kind, t_))
+                        if len(live) != 1:
+                            raise pat.NotEvaluable(("sources", len(live)))
+                        kind, t_ = live[0]
+                        if ln == 0:
+                            okk = kind == "default"
+                        else:
+                            okk = kind == "cell" and pat.eval_term(t_, leaf) == (D + cur - 1) % D
+                        if not okk:
+                            bad = "with dict_size %d, cursor %d and %d bytes produced the previous byte is taken from %s, expected %s" % (
+                                D, cur, ln, "the default" if kind == "default" else ("cell %s" % (pat.eval_term(t_, leaf) if kind == "cell" else "?")),
+                                "the default" if ln == 0 else "cell %d" % ((D + cur - 1) % D))
+                            break
+                    if bad:
+                        break
+                if bad:
+                    break
+        except pat.Overflow as ex:
+            bad = "the index of the previous byte overflows for some (cursor, produced)"
+        except pat.NotEvaluable as ex:
+            r.bad("last_or|term", "cannot evaluate which cell last_or reads", pat.where(lo), "unverifiable")
+            bad = None
+        else:
+            if bad:
+                r.bad("last_or|cell", bad + ": after the window has wrapped the literal context is wrong", pat.where(lo))
+            else:
+                r.ok("evaluation", {"last_or": "default iff nothing produced, else buf[(dict_size + cursor - 1) % dict_size]"})
     al = next((x for x in facts.bodies if x.promoted is None and x.trait == "decode::lzbuffer::LzBuffer" and
                x.item == "append_literal" and "Circular" in x.name), None)
     r.need("circular append_literal", al is not None)
